@@ -35,7 +35,8 @@ C10_DANGLING_SCANDIR = ("OSFS: scandir(dir, namespaces that need a stat) raises 
 C10_DANGLING_GETINFO = ("OSFS: a dangling symbolic link is listed by listdir / scandir, but exists() is False and getinfo() "
                         "raises ResourceNotFound (also for the lstat / link namespaces)")
 # TODO (to be registered in known_findings.json; until then counted in the evidence, not reported):
-PENDING_FINDINGS = [C01_TEXT_UNBUFFERED, C10_DANGLING_SCANDIR, C10_DANGLING_GETINFO]
+PENDING_FINDINGS = []    # C01_TEXT_UNBUFFERED: genuine defect, repaired in /repo (38091de); the two dangling-link
+#                            signatures are registered in known_findings.json (C10)
 #                          (fs4, 2026-10-01: three behaviours of the UNCHANGED library exposed by the text-call block of C01
 #                            and by the symbolic-link trees of C10; awaiting triage)
 #                            the two OSFS alias findings are registered in known_findings.json; the MountFS mount-point
@@ -936,6 +937,138 @@ def run_layer_block(report, thorough):
     return cov, bad
 
 
+# ---- C01 on FTPFS (loop-back pyftpdlib server, harness/ftpserver.py): the per-backend comparison with the reference
+# stepped from the backend's own pre-state, on the two network backends (server with MLST/MLSD; server without, i.e. the
+# LIST parsers).  Fewer histories than the local backends (every call is several round trips).  Two regions are kept
+# out of the RANDOM histories and probed by fixed ones instead, because there FTPFS goes wrong in so many shapes that
+# the (call, outcome) signatures would never be complete:
+#   - names that begin with a space (both listing parsers strip it: the entry is listed under another name),
+#   - on the LIST server, paths below a file (LIST <file> answers with the file itself, so 'f/f' looks like a file).
+# On the LIST server nothing more of a random history is compared after a call with a path below a file (a failed
+# transfer there leaves the shared control connection out of step, whatever the call itself answered).
+
+FTP_C01_HISTORIES = (100, 600)         # per backend: quick, thorough
+FTP_SPACE_SIG = ("%s: a name that begins with a space is listed without it (scandir/listdir name it 'sp' for ' sp'); "
+                 "calls that look the entry up in a listing (getinfo on the LIST server, removetree, movedir, ...) "
+                 "then miss it")
+FTP_BELOW_FILE_SIG = ("%s: a path below a file ('f/x', f a file) - getinfo lists the file's own path with LIST, the "
+                      "server answers with the file itself, and 'f/f' passes for an existing file (other names: the "
+                      "failure class depends on that listing); transfers on such a path fail with raw ftplib errors "
+                      "and leave the shared control connection one reply out of step")
+FTP_SPACE_PROBES = [
+    [("makedir", " sp", False), ("listdir", "/"), ("scandir", "/"), ("getinfo", " sp"), ("isdir", " sp"),
+     ("writebytes", " sp/f", b"x"), ("listdir", " sp"), ("readbytes", " sp/f"), ("removetree", " sp"), ("listdir", "/")],
+    [("writebytes", " sp", b"hello"), ("listdir", "/"), ("exists", " sp"), ("getsize", " sp"), ("readbytes", " sp"),
+     ("move", " sp", "b", False, False), ("listdir", "/")],
+    [("makedirs", "a/ sp", False), ("listdir", "a"), ("movedir", "a", "b", True, False), ("listdir", "b"),
+     ("removetree", "/"), ("listdir", "/")],
+]
+FTP_BELOW_FILE_PROBES = [
+    [("writebytes", "f", b"x"), ("exists", "f/f"), ("getinfo", "f/f"), ("isfile", "f/f"), ("exists", "f/g"),
+     ("makedir", "f/f", False), ("readbytes", "f/f"), ("writebytes", "f/f", b"y"), ("readbytes", "f")],
+    [("makedir", "d", False), ("writebytes", "d/f", b"x"), ("getsize", "d/f/f"), ("copy", "d/f", "d/f/f", False, False),
+     ("touch", "d/f/f"), ("listdir", "d")],
+]
+
+
+# TODO PENDING_FINDINGS (ftp4, 2026-10-01): what the UNCHANGED FTPFS gets wrong in the comparison above, by signature_c01
+# (both kinds of server) and by the two probe signatures; awaiting triage.  Details with call sequences: evidence
+# coverage["ftpfs_loopback_server"], and the final report of the FTP work.
+FTP_C01_OUTCOMES = [
+    "setinfo impl=ok ref=fail:ResourceNotFound",                   # setinfo(missing path, modified time): MFMT error swallowed
+    # (repaired in /repo by the FTPFS fix series of 2026-10-01 - violations again if they return: copy/move/writebytes/
+    #  create onto '/' or a directory -> FileExpected; create(directory) -> False; touch(directory); openbin(missing,
+    #  'w+'/'a+'/'x+'); openbin(missing, 'w'/'a'/'x').close() creates the file; 'r+' + write(b'') leaves the file alone)
+]
+FTP_C01_PENDING = ["%s.%s" % (_b.name, _o) for _b in B.NETWORK for _o in FTP_C01_OUTCOMES] + \
+                  [FTP_SPACE_SIG % _b.name for _b in B.NETWORK] + [FTP_BELOW_FILE_SIG % B.FTPNoMLSD.name]
+# (registered in known_findings.json on 2026-10-01, C01 and - the space names - C10: nothing is pending)
+
+
+def _below_file(step):
+    """Does a path argument of the call have a proper ancestor that is a file in the pre-state?"""
+    from fs.path import abspath, normpath, recursepath
+    try:
+        files = set(p for p, kind, _d in fsops.tree_paths(step.pre) if kind == "F")
+    except Exception:  # noqa
+        return False
+    args = step.op[1:3] if step.op[0] in ("move", "copy", "movedir", "copydir") else step.op[1:2]
+    for a in args:
+        try:
+            q = abspath(normpath(a))
+        except Exception:  # noqa
+            continue
+        if any(anc in files for anc in recursepath(q)[:-1]):
+            return True
+    return False
+
+
+def ftp_histories(seed, n, maxlen):
+    """Random histories of the usual generator, without the names that begin with a space."""
+    odd = genhist.ODD_NAMES
+    genhist.ODD_NAMES = [x for x in odd if x.strip() == x]
+    try:
+        return gen_histories(seed, n, maxlen)
+    finally:
+        genhist.ODD_NAMES = odd
+
+
+def run_c01_ftp(report, thorough):
+    """-> (coverage, [(step, ref, okr, okt, signature)]) for the two FTP backends."""
+    ok, why = B.network_available()
+    cov = dict(available=ok, unavailable_because=why, backends={})
+    if not ok:
+        return cov, []
+    out = []
+    hs = ftp_histories(report.seed + 10101, FTP_C01_HISTORIES[thorough], 40 if thorough else 12)
+    for bc in B.NETWORK:
+        c = dict(histories=len(hs), steps=0, divergences=0, not_compared_after_a_call_below_a_file=0, probe_steps=0)
+        for label, use in (("random", hs), ("space", FTP_SPACE_PROBES), ("belowfile", FTP_BELOW_FILE_PROBES)):
+            steps = run_histories(bc, use)
+            # a connection that could not be made (the machine ran out of local ports: every transfer is a connection
+            # of its own, other checks use the loop-back server at the same time) says nothing about the library:
+            # those histories are run once more, a little later
+            lost = sorted(set(s.hist_id for s in steps if "RemoteConnectionError" in s.outcome))
+            if lost:
+                import time
+                time.sleep(2.0)
+                c["histories_rerun_after_connection_failure"] = c.get("histories_rerun_after_connection_failure", 0) + len(lost)
+                again = run_histories(bc, [use[i] for i in lost], hist_ids=lost)
+                steps = [s for s in steps if s.hist_id not in lost] + again
+            refs = ref_steps(steps)
+            dead = set()
+            for s, r in zip(steps, refs):
+                if s.hist_id in dead:
+                    c["not_compared_after_a_call_below_a_file"] += 1
+                    continue
+                c["steps" if label == "random" else "probe_steps"] += 1
+                okr, okt = agrees2(s, r)
+                below = bc is B.FTPNoMLSD and _below_file(s)
+                if below and label == "random":
+                    dead.add(s.hist_id)      # whatever this call answers, the control connection may be out of step now
+                if okr and okt:
+                    continue
+                c["divergences"] += 1
+                if label == "space":
+                    sig = FTP_SPACE_SIG % bc.name
+                elif label == "belowfile" and bc is B.FTPNoMLSD:
+                    sig = FTP_BELOW_FILE_SIG % bc.name
+                elif below:
+                    sig = FTP_BELOW_FILE_SIG % bc.name
+                else:
+                    sig = signature_c01(s, r)
+                hist = [op_json(o) for o in use[s.hist_id][:s.index + 1]]
+                out.append((s, r, okr, okt, sig, hist))
+        cov["backends"][bc.name] = c
+    cov["rule"] = ("both backends: %d random histories (generator of the local backends, names that begin with a space "
+                   "left out) + %d fixed histories with such names + %d with paths below a file; every call compared "
+                   "with the reference stepped from the server directory's own pre-state (read with os.* once every "
+                   "transfer has ended); on the LIST server the rest of a random history is not compared after a "
+                   "call with a path below a file" % (len(hs), len(FTP_SPACE_PROBES), len(FTP_BELOW_FILE_PROBES)))
+    return cov, out
+
+
+
 def run_c01(report):
     proof = common.preflight(report)
     thorough = report.tier == "thorough"
@@ -1018,6 +1151,29 @@ def run_c01(report):
                                   call=op_json(s.op), tree_before=s.pre, implementation=s.outcome,
                                   tree_after=s.post, reference=r, result_agrees=okr, tree_agrees=okt,
                                   theorem="Props/C01.v"))
+    # 2a'. the same comparison on FTPFS over a loop-back server (both kinds of server), with its own budget
+    ftp_cov, ftp_div = run_c01_ftp(report, thorough)
+    ftp_pending = collections.Counter()
+    for s, r, okr, okt, sig, hist in ftp_div:
+        total += 1
+        known = report.known_match(sig)
+        if known:
+            report.known_finding(known, example=hist)
+            continue
+        if sig in PENDING_FINDINGS:
+            ftp_pending[sig] += 1
+            continue
+        divergences.append((s, r, okr, okt))
+        if sig in seen_sig:
+            continue
+        seen_sig.add(sig)
+        if len(seen_sig) <= 12:
+            report.violation(dict(kind="diverges-from-reference", backend=s.backend, signature=sig, history=hist,
+                                  call=op_json(s.op), tree_before=s.pre, implementation=s.outcome,
+                                  tree_after=s.post, reference=r, result_agrees=okr, tree_agrees=okt,
+                                  theorem="Props/C01.v"))
+    ftp_cov["pending_findings_seen"] = dict(ftp_pending)
+    total += sum(c["steps"] + c["probe_steps"] for c in ftp_cov["backends"].values())
     # 2b. the stream-taking calls (upload / writefile / download / piecewise reads) on every backend
     st_cov, st_div, st_bulk, st_vseed, st_hs = run_stream_block(report, backs, thorough)
     for s, r, okr, okt, v in st_div:
@@ -1101,6 +1257,7 @@ def run_c01(report):
                disagreements_checked=len(divergences), model_fidelity_mismatches=len(fidelity_bad),
                vm_compute_crosschecked=n_vm, per_backend=per_backend,
                distribution={"%s/%s" % k: v for k, v in sorted(dist.items())})
+    cov["ftpfs_loopback_server"] = ftp_cov
     cov["stream_calls"] = st_cov
     cov["text_calls"] = tx_cov
     cov["multifs_layers_added_while_in_use"] = ly_cov
@@ -2892,6 +3049,113 @@ def spelling_check(fs, path, thorough):
     return bad
 
 
+# ---- C10 on FTPFS (loop-back server): the battery of run_c10 on the two network backends, in forked workers that run
+# beside the local backends (every query is several round trips).  States: those reached by random histories without
+# names that begin with a space (on the LIST server also without calls below a file, which leave the control connection
+# out of step - both are C01 findings) + one fixed history with such a name, reported under a signature of its own.
+
+FTP_C10_HISTORIES = {"FTPFS": (8, 40), "FTPFS(server without MLST/MLSD)": (4, 20)}    # quick, thorough (LIST server:
+#                                        every query lists the parent directory over a data connection of its own)
+FTP_C10_SPACE_HISTORY = [("makedir", "d", False), ("writebytes", "d/ sp", b"hello"), ("makedir", " sp", False),
+                         ("writebytes", " sp/f", b"x")]
+
+
+def c10_ftp_worker(args):
+    """The C10 battery on one FTP backend -> (backend name, bad, total, nontrivial, n_spell, n_ns)."""
+    name, hs, thorough = args
+    bc = B.BY_NAME[name]
+    Pre = collections.namedtuple("Pre", "pre op")
+    bad, nontrivial = [], []
+    total = n_spell = n_ns = 0
+    todo = [(hi, h, 0) for hi, h in enumerate(list(hs) + [FTP_C10_SPACE_HISTORY])]
+    while todo:
+        hi, h, attempt = todo.pop(0)
+        space = hi == len(hs)
+        b = bc()
+        mark = len(bad), total, len(nontrivial), n_spell, n_ns
+        try:
+            fs = b.make()
+            done = []
+            for k, o in enumerate(h):
+                if bc is B.FTPNoMLSD and _below_file(Pre(b.snapshot(), o)):
+                    continue
+                fsops.execute(fs, o)
+                done.append(o)
+                if k % 2 and not thorough and not space:
+                    continue
+                try:
+                    walked = [p for p, _i in fs.walk.info()]
+                except Exception as e:  # noqa
+                    walked = []
+                    bad.append((bc.name, list(done), "/", ["walk of the whole filesystem fails: %s" % common.exc_name(e)],
+                                space))
+                paths = ["/"] + sorted(set(walked)) + ["/nope", "/nope/x"]
+                for p in paths:
+                    total += 1
+                    r = query_check(fs, p)
+                    if thorough or k >= len(h) - 2:
+                        r = r + spelling_check(fs, p, thorough)
+                        n_spell += 1
+                        try:
+                            p_is_dir = fs.isdir(p)
+                        except Exception:  # noqa
+                            p_is_dir = False
+                        if p_is_dir:
+                            r = r + namespace_check(fs, p, thorough)
+                            n_ns += 1
+                    try:
+                        nontrivial.append((bc.name, len(paths), p, fs.isdir(p)))
+                    except Exception:  # noqa
+                        pass
+                    if r:
+                        bad.append((bc.name, list(done), p, r, space))
+        except Exception as e:  # noqa  -- the battery itself raised (a query outside its guards: connection lost)
+            del bad[mark[0]:], nontrivial[mark[2]:]
+            total, n_spell, n_ns = mark[1], mark[3], mark[4]
+            if attempt == 0:
+                import time
+                time.sleep(2.0)
+                todo.append((hi, h, 1))       # once more, later (local ports may have run out)
+            else:
+                bad.append((bc.name, list(h), "/", ["the battery raised twice: %s" % common.exc_name(e)], space))
+        finally:
+            b.close()
+    return name, bad, total, nontrivial, n_spell, n_ns
+
+
+def c10_ftp_start(report, thorough):
+    """Start the FTP batteries in forked workers; -> (coverage, pool, async results)."""
+    ok, why = B.network_available()
+    cov = dict(available=ok, unavailable_because=why)
+    if not ok:
+        return cov, None, []
+    hs = ftp_histories(report.seed + 1010, max(v[thorough] for v in FTP_C10_HISTORIES.values()), 25 if thorough else 10)
+    cov.update(histories=dict((k, v[thorough] + 1) for k, v in FTP_C10_HISTORIES.items()),
+               backends=[bc.name for bc in B.NETWORK],
+               rule="the battery of the local backends after the calls of %d random histories (no names that begin with "
+                    "a space; LIST server: calls with a path below a file skipped) + 1 fixed history with names that "
+                    "begin with a space (signature of its own)" % len(hs))
+    jobs = [(bc.name, hs[:FTP_C10_HISTORIES[bc.name][thorough]], thorough) for bc in B.NETWORK]
+    try:
+        import multiprocessing
+        pool = multiprocessing.get_context("fork").Pool(len(jobs))
+        return cov, pool, [pool.apply_async(c10_ftp_worker, (j,)) for j in jobs]
+    except Exception:  # noqa  -- no fork here: run them in line at the end
+        return cov, None, jobs
+
+
+def c10_ftp_collect(pool, pending):
+    out = []
+    try:
+        for x in pending:
+            out.append(c10_ftp_worker(x) if isinstance(x, tuple) else x.get(900))
+    finally:
+        if pool is not None:
+            pool.terminate()
+    return out
+
+
+
 def run_c10(report):
     proof = common.preflight(report)
     thorough = report.tier == "thorough"
@@ -2902,6 +3166,7 @@ def run_c10(report):
     backs = list(B.ALL) + [ReadZip, ReadTar, MultiLayered] + C10_WRAPPED + C10_HETERO + B.LINKED
     per = collections.Counter()
     n_spell = n_ns = 0
+    ftp_cov, ftp_pool, ftp_pending = c10_ftp_start(report, thorough)      # FTPFS batteries run beside the loop below
     for bc in backs:
         for hi, h in enumerate(hs if bc in (B.Mem, B.OS) or thorough else hs[:6] if bc in C10_HETERO
                                else hs[:8] if bc in B.LINKED else hs[:25]):
@@ -2955,6 +3220,14 @@ def run_c10(report):
     seen = set()
     pending_seen = collections.Counter()
     bad2 = []
+    for name, fbad, ftotal, fnontrivial, fspell, fns in c10_ftp_collect(ftp_pool, ftp_pending):
+        total += ftotal
+        per[name] += ftotal
+        n_spell += fspell
+        n_ns += fns
+        nontrivial.update(fnontrivial)
+        for bname, h, p, r, space in fbad:
+            bad2.append((bname, h, p, r, FTP_SPACE_SIG % bname if space else None))
     for name, h, p, r in bad:
         # directory-cache wrappers and page windows (behaviour of the unchanged library, see PENDING_FINDINGS): the
         # page inconsistencies get their own class signature, whatever else is inconsistent is judged normally
@@ -2999,6 +3272,7 @@ def run_c10(report):
              "pages are compared with each other; non-trivial = distinct (backend, tree size, path, kind)",
         disagreements_checked=len(bad), per_backend=dict(per), traces_validated_against_impl=total - len(bad),
         wrapper_objects=[bc.name for bc in C10_WRAPPED], pending_findings_seen=dict(pending_seen),
+        ftpfs_loopback_server=ftp_cov,
         symbolic_link_trees=[bc.name for bc in B.LINKED], directories_compared_per_namespace_subset=n_ns,
         namespace_rule="scandir(d, namespaces=S) infos = getinfo(join(d, name), namespaces=S) on every namespace both carry "
                        "(volatile keys %s excluded), for S over the subsets of %s (quick tier: the full set, the singletons "
